@@ -44,6 +44,7 @@ type Call struct {
 	// extra inputs for HTTP API calls
 	Session string
 	OldPW   string
+	Raw     string // authenticate via api: this request body instead of the JSON of User / PW
 
 	done        atomic.Bool
 	OK          bool
@@ -372,7 +373,11 @@ func (w *AWorld) execAPI(a *Agent, c *Call) {
 	var m map[string]any
 	switch c.Kind {
 	case "authenticate":
-		code, m, c.Body = w.postJSON(a, "/api/authenticate", map[string]any{"username": c.User, "password": c.PW})
+		if c.Raw != "" {
+			code, m, c.Body = w.postJSON(a, "/api/authenticate", c.Raw)
+		} else {
+			code, m, c.Body = w.postJSON(a, "/api/authenticate", map[string]any{"username": c.User, "password": c.PW})
+		}
 		if s, ok := m["session"].(string); ok {
 			c.Token = s
 		}
